@@ -219,6 +219,48 @@ def stream_long(ctx, lengths):
                 viol(ctx, "rescaled_lm:long-context", f"rescaled p_next after {len(c)} tokens: [{bad[0]}] = {bad[1]}, exact Earley LM gives {float(bad[2])}", {"kind": "lm", "what": "p_next", "lm": "rescaled_lm", "sr": "float", "grammar": g, "context": c, "token": bad[0], "observed": str(bad[1]), "expected": str(float(bad[2]))})
 
 
+def stream_lockstep(ctx, n):
+    """several sentences advanced in lock-step on ONE language-model object (beam search / SMC style): every answer must be
+    the answer of a fresh object (whose answers the other streams compare with the prefix-weight semantics)"""
+    gs = []
+    tries = 0
+    while len(gs) < n and tries < 20000:
+        tries += 1
+        g = M.rand_grammar(ctx.rng, weights=[Fraction(1, 4), Fraction(1, 5), Fraction(1, 8), Fraction(1, 3)], nN=ctx.rng.randint(1, 3), nT=2)
+        if M.dep_acyclic(g):
+            continue
+        V, conv = M.total_float(g, iters=2000, tol=1e-14)
+        if conv and V.get(g["S"], 0.0) > 1e-4:
+            gs.append(g)
+    jobs = []
+    for g in gs:
+        sents = [[ctx.rng.randrange(2) for _ in range(ctx.rng.randint(4, 7))] for _ in range(3)]
+        ops = []
+        for L in range(0, 8):
+            for sidx in ctx.rng.sample(range(3), 3):
+                if L <= len(sents[sidx]):
+                    ops.append(["p_next", sents[sidx][:L]])
+        for kind in ("earley_lm", "rescaled_lm", "cky_lm"):
+            jobs.append({"g": g, "sr": "float", "kind": kind, "ops": ops, "fresh_compare": True, "timeout": 60})
+    res = run_lm(jobs)
+    for job, r in zip(jobs, res):
+        ctx.dist("lock-step:" + job["kind"])
+        if "build_err" in r:
+            continue
+        for op, q in zip(job["ops"], r["results"]):
+            ctx.cov["oracle_cases"] += 1
+            if "fresh" not in q or "ok" not in q or "ok" not in q["fresh"]:
+                continue
+            a, b = q["ok"], q["fresh"]["ok"]
+            keys = set(a) | set(b)
+            bad = [t for t in keys if abs(float(dec_val(a.get(t, "0/1"))) - float(dec_val(b.get(t, "0/1")))) > 1e-9]
+            ctx.count_case(("lock-step", json.dumps(job["g"]), job["kind"], tuple(op[1])), nontrivial=bool(b))
+            if bad:
+                viol(ctx, f"{job['kind']}:lock-step", f"{job['kind']}.p_next({op[1]})[{bad[0]}] = {dec_val(a.get(bad[0], '0/1'))} after other sentences were advanced on the same object; a fresh object gives {dec_val(b.get(bad[0], '0/1'))}",
+                     {"kind": "lm", "what": "lock-step", "lm": job["kind"], "sr": "float", "grammar": job["g"], "context": op[1], "history": job["ops"][: job["ops"].index(op) + 1], "token": bad[0], "observed": str(dec_val(a.get(bad[0], "0/1"))), "expected": str(dec_val(b.get(bad[0], "0/1")))})
+                break
+
+
 def run(ctx):
     quick = ctx.tier == "quick"
     ctx.cov["rule"] = ("EarleyLM, CKYLM, rescaled EarleyLM on generated grammars: finite-language grammars with exact rationals (p_next vs normalised prefix weights of context+token from the Coq prefix tabulation, eos = weight of the context, unnormalised weights vs prefix weights, chain rule vs weight/total), "
@@ -241,10 +283,16 @@ def run(ctx):
     stream_exact(ctx, 20 if quick else 200, [0] if quick else [0, 1, 2])
     stream_float(ctx, 12 if quick else 120)
     stream_long(ctx, [50, 200] if quick else [50, 100, 200, 400])
+    stream_lockstep(ctx, 10 if quick else 80)
 
 
 def replay(obj):
     op = {"p_next": "p_next", "weights": "weights", "chain": "call", "sum": "p_next"}.get(obj.get("what"), "p_next")
+    if obj.get("what") == "lock-step":
+        r = run_lm([{"g": obj["grammar"], "sr": obj["sr"], "kind": obj["lm"], "ops": obj["history"], "fresh_compare": True}])[0]
+        print("grammar:", json.dumps(obj["grammar"]))
+        print("history:", obj["history"], "-> last:", json.dumps(r["results"][-1])[:1500] if "results" in r else r)
+        return 0
     r = run_lm([{"g": obj["grammar"], "sr": obj["sr"], "kind": obj["lm"], "ops": [[op, obj.get("context", [])]]}])[0]
     print("grammar:", json.dumps(obj["grammar"]))
     print(op, obj.get("context"), "->", json.dumps(r)[:1500], "expected:", obj.get("expected"))
